@@ -240,22 +240,38 @@ func isOracleError(err error) bool {
 	return strings.Contains(m, "error parsing regexp") || strings.Contains(m, "unable to find time zone")
 }
 
-// longNumberLiteral reports whether the text contains a NUMBER token with more than 15
+// longNumberLiteral reports whether the text contains a number literal with more than 15
 // significant digits: the model keeps number literals as exact decimals, which coincides with
 // float64 formatting only up to 15 digits (DESIGN §3), so such cases are not compared.
+// The check is purely textual and therefore conservative: any run of digits with one '.' carrying
+// more than 15 significant digits counts, wherever it stands. (Tokenising with the plain Scanner
+// misses literals that only the parser sees: after a ScanRegex the plain Scanner may be inside what
+// it takes for a comment - a 1-in-10^6 false model/implementation difference.)
 func longNumberLiteral(text string) bool {
-	sc := influxql.NewScanner(strings.NewReader(text))
-	for i := 0; i < len(text)+4; i++ {
-		tok, _, lit := sc.Scan()
-		if tok == influxql.EOF {
-			break
+	n := len(text)
+	for i := 0; i < n; {
+		if !(text[i] >= '0' && text[i] <= '9') && text[i] != '.' {
+			i++
+			continue
 		}
-		if tok == influxql.NUMBER {
-			d := strings.TrimLeft(strings.Replace(lit, ".", "", 1), "0")
-			if len(d) > 15 {
-				return true
+		j := i
+		dots := 0
+		var digits []byte
+		for j < n && ((text[j] >= '0' && text[j] <= '9') || (text[j] == '.' && dots == 0)) {
+			if text[j] == '.' {
+				dots++
+			} else {
+				digits = append(digits, text[j])
 			}
+			j++
 		}
+		if dots > 0 && len(strings.TrimLeft(string(digits), "0")) > 15 {
+			return true
+		}
+		if j == i {
+			j++
+		}
+		i = j
 	}
 	return false
 }
